@@ -1,9 +1,16 @@
+/* harnesses of unit mtbdd_l1: every function is called once on an arbitrary node in fresh memory */
 M_MK_NODE_DEF
-#ifdef HARNESS_h_classifyCase2
-void h_classifyCase2(void) {
-  NP a, b; a.f0 = mk_node(); b.f0 = mk_node();
-  _Bool same; if (same) b = a;
-  uint8_t r = _ZN4VATA8MTBDDPkg13classifyCase2INS0_12MTBDDNodePtrIjEES3_EEcRKT_RKT0_(&a, &b);
-  __CPROVER_assert(0, "canary: h_classifyCase2 reaches the end (must FAIL)");
-}
-#endif
+#define CANARY(n) __CPROVER_assert(0, "canary: " n " reaches the end (must FAIL)")
+void h_CLASSIFY2(void) { NP a, b; a.f0 = mk_node(); b.f0 = mk_node(); _Bool same; if (same) b = a; CLASSIFY2(&a, &b); CANARY("h_CLASSIFY2"); }
+void h_CLASSIFY3(void) { uint64_t a = mk_node(), b = mk_node(), c = mk_node(); _Bool s1, s2; if (s1) b = a; if (s2) c = b; CLASSIFY3(a, b, c); CANARY("h_CLASSIFY3"); }
+#define H_PTR(F) void h_##F(void) { NP a; a.f0 = mk_node(); F(&a); CANARY("h_" #F); }
+#define H_VAL(F) void h_##F(void) { uint64_t a = mk_node(); g_rc0 = *RCP(a); F(a); CANARY("h_" #F); }
+H_PTR(IS_LEAF) H_PTR(IS_INTERNAL) H_PTR(N2L) H_PTR(N2L_C) H_PTR(N2I) H_PTR(N2I_C)
+H_PTR(GET_VAR) H_PTR(GET_VAR_C) H_PTR(GET_LOW) H_PTR(GET_LOW_C) H_PTR(GET_HIGH) H_PTR(GET_HIGH_C) H_PTR(GET_DATA)
+H_VAL(GET_LEAF_RC) H_VAL(INC_RC) H_VAL(DEC_LEAF_RC) H_VAL(DEC_INT_RC) H_VAL(DEL_LEAF) H_VAL(DEL_INT)
+void h_IS_NULL(void) { uint64_t a; IS_NULL(a); CANARY("h_IS_NULL"); }
+void h_MK_LEAF(void) { LF* l = malloc(sizeof *l); MK_LEAF(l); CANARY("h_MK_LEAF"); }
+void h_MK_INT(void) { IN* n = malloc(sizeof *n); MK_INT(n); CANARY("h_MK_INT"); }
+void h_NP_EQ(void) { NP a, b; NP_EQ(&a, &b); CANARY("h_NP_EQ"); }
+void h_CREATE_LEAF(void) { uint32_t d; uint64_t w = mk_node(); g_wit = M_IS_LEAF(w) ? (void*)M_LEAF(w) : (void*)M_INT(w); CREATE_LEAF(&d); CANARY("h_CREATE_LEAF"); }
+void h_CREATE_INT(void) { uint64_t l = mk_node(), h = mk_node(), v; _Bool s; if (s) h = l; CREATE_INT(l, h, &v); CANARY("h_CREATE_INT"); }
